@@ -4,6 +4,8 @@ import Mutagen.Proofs.Lifecycle2
 import Mutagen.Proofs.Lifecycle3
 import Mutagen.Proofs.Lifecycle4
 import Mutagen.Proofs.Lifecycle5
+import Mutagen.Proofs.Lifecycle6
+import Mutagen.Proofs.Lifecycle7
 /-!
 # C29 — session lifecycle commands take effect exactly as documented
 
@@ -175,5 +177,81 @@ theorem dead_stays_dead {s s' : State} {l : Label} (d : Dead s) (st : Step s l s
         obtain ⟨_, t, ph, hc, _⟩ := threadSteps_endpoint h hle
         rw [d.crit] at hc
         simp at hc
+
+/-- **Client calls never tell an endpoint to change anything.** The only endpoint
+calls made by `create`, `pause`, `resume`, `flush`, `reset`, `terminate` or a
+manager restart themselves are the two connects of `newSession`, `resume` and
+`reset`, made while holding the lifecycle lock; every scan, staging, supply,
+transition, poll and shutdown is a step of the run loop. In particular a
+`reset` issues no endpoint mutation. -/
+theorem calls_only_connect {s : State} {th : Thread} {l : Label} {s' : State}
+    (h : (l, s') ∈ threadSteps s th) (he : l.isEndpoint = true) : ∃ sd, l = .ep (.conn sd) :=
+  (threadSteps_endpoint h he).1
+
+/-- **The archive is written only by an idle controller or by the loop's own
+save.** In every run, a step that changes the archive file either happens
+while no run loop exists (create, reset, terminate: they stop the loop first,
+holding the lifecycle lock), or is the run loop saving its ancestor at the end
+of a cycle. So a `reset` is never overwritten by a loop that still holds the
+old ancestor. -/
+theorem archive_written_when_idle_or_by_cycle {w : Bool} {tr : List Label} {s s' : State} {l : Label}
+    (r : Run (init w) tr s) (st : Step s l s') : s'.arch = s.arch ∨ s.loop = none ∨ s'.arch = some true := by
+  have i := invA_run r
+  cases st with
+  | call h =>
+    left
+    unfold doCall at h
+    split at h
+    · simp at h
+    · simp only [Option.some.injEq] at h; subst h; rfl
+  | internal h =>
+    unfold succ at h
+    rcases List.mem_append.mp h with h | h
+    · cases hl : s.loop with
+      | none => simp [hl] at h
+      | some lp =>
+        simp only [hl] at h
+        rcases loopSteps_arch h with h1 | h1
+        · exact Or.inl h1
+        · exact Or.inr (Or.inr h1)
+    · obtain ⟨th, _, h⟩ := List.mem_flatMap.mp h
+      rcases threadSteps_arch h (loop_none_of_not_running i)
+        (fun t c hc => (i.crit_conn t _ hc (by simp)).1) with h1 | h1
+      · exact Or.inl h1
+      · exact Or.inr (Or.inl h1)
+
+/-- **Every scan is told the ancestor that is on disk.** In every run, the
+ancestor flag passed to an endpoint's `Scan` is exactly "the archive on disk is
+non-empty": after a `reset` (or a create) and until a cycle completes, scans
+see the empty ancestor, which under two-way-safe reconciliation deletes
+nothing (C01). -/
+theorem scan_is_told_the_disk_ancestor {w : Bool} {tr : List Label} {s s' : State} {sd : Side} {f a : Bool}
+    (r : Run (init w) tr s) (st : Step s (.ep (.scanS sd f a)) s') : a = (s.arch == some true) := by
+  have iB := invB_run r
+  cases st with
+  | internal h =>
+    unfold succ at h
+    rcases List.mem_append.mp h with h | h
+    · cases hl : s.loop with
+      | none => simp [hl] at h
+      | some lp =>
+        simp only [hl] at h
+        obtain ⟨h1, _, h3⟩ := loopSteps_scanS h
+        rw [h3]
+        exact iB lp hl (by rw [h1]; rfl)
+    · obtain ⟨th, _, h⟩ := List.mem_flatMap.mp h
+      obtain ⟨⟨sd', he⟩, _⟩ := threadSteps_endpoint h rfl
+      simp at he
+
+/-- **Reset clears the history before it returns.** In every run, when a
+`reset` call returns successfully there is an earlier point of the same run,
+during the call, at which the archive on disk was the empty one. -/
+theorem reset_clears_history_before_return {w : Bool} {tr : List Label} {s s' : State} {t : Nat}
+    (r : Run (init w) tr s) (st : Step s (.ret t .reset .ok) s') :
+    ∃ tr1 s1 tr2, Run (init w) tr1 s1 ∧ Run s1 tr2 s ∧ tr = tr1 ++ tr2 ∧
+      s1.arch = some false ∧ ∃ y ∈ s1.threads, y.id = t ∧ y.op = .reset := by
+  obtain ⟨⟨th, hth, h1, h2, h3⟩, _⟩ := ret_source st
+  obtain ⟨tr1, s1, tr2, r1, r2, e, ha, y, hy, hy1, hy2, _⟩ := reset_cleared r th hth h2 h3
+  exact ⟨tr1, s1, tr2, r1, r2, e, ha, y, hy, hy1.trans h1, hy2⟩
 
 end Mutagen.Properties.C29
